@@ -1,5 +1,6 @@
 """C09 — every textual format denotes the unit exactly; plain-text formats round-trip."""
 from __future__ import annotations
+import logging
 
 import random
 
@@ -296,7 +297,43 @@ class Check(Property):
                          f"Python's format gives {want}")
         return v
 
+    def symbol_source_probe(self):
+        """the ~ formats write the symbol the unit has in THIS registry NOW: two registries that give one name different symbols,
+        and a unit defined again with another symbol, each render their own current symbol (in every style)"""
+        v = []
+        logging.disable(logging.CRITICAL)
+        try:
+            lab, shop = regs.fresh("float"), regs.fresh("float")
+            lab.define("smoot09 = 1.7018 * meter = smt")
+            lab.define("jiffy09 = 0.01 * second = jf")
+            shop.define("smoot09 = 1.7018 * meter = sm9")
+            shop.define("jiffy09 = 0.01 * second = jy")
+            for spec in ("~", "~D", "~C", "~P", "~H", "~L"):
+                for order in ((lab, shop), (shop, lab), (lab, shop)):
+                    for r in order:
+                        text = format(r.Quantity(3, "smoot09 / jiffy09").units, spec)
+                        s1, s2 = r.get_symbol("smoot09"), r.get_symbol("jiffy09")
+                        if s1 not in text or s2 not in text:
+                            v.append(f"C09 format(smoot09 / jiffy09, {spec!r}) = {text!r} in the registry whose symbols are {s1!r} and {s2!r}")
+            one = regs.fresh("float")
+            one.define("parcel09 = [] = pcl")
+            a = format(one.Quantity(2, "parcel09"), "~")
+            one.define("parcel09 = [] = pc9")
+            b = format(one.Quantity(2, "parcel09"), "~")
+            if not a.endswith("pcl") or not b.endswith("pc9"):
+                v.append(f"C09 parcel09 defined with the symbol pcl renders {a!r}; defined again with the symbol pc9 it renders {b!r}")
+        except Exception as exc:  # noqa: BLE001
+            v.append(f"C09 symbol-source probe raised {type(exc).__name__}: {exc}")
+        finally:
+            logging.disable(logging.NOTSET)
+        return v[:6]
+
     def oracle(self, c):
+        if not getattr(self, "_symsrc_done", False):
+            self._symsrc_done = True
+            sv = self.symbol_source_probe()
+            if sv:
+                return sv
         if c["kind"] == "split":
             return []
         v = []
